@@ -13,4 +13,51 @@ namespace Romea.Hidden.C07
 
 theorem hidden_state_as_recorded : Romea.Generated.C07.hiddenState = [] := by rfl
 
+/-- The names (not only the types) of what every translated function reads, carries through its loops and returns are those
+    the bridge theorems were written against: a function that now reads or writes ANOTHER member of the same type keeps its Lean
+    type, and a positional application in a bridge would keep checking. -/
+theorem signatures_as_recorded : Romea.Generated.C07.signatures = [
+    "LeastSquares.LeastSquares_default_d () result: Ac__cols', Ac__m', Ac__rows', Bc__m', Bc__rows', J__cols', J__m', J__rows', JtJ__cols', JtJ__m', JtJ__rows', JtY__m', JtY__rows', W__m', W__rows', Y__m', Y__rows', dataSize_', estimateSize_', inverseJtJ__cols', inverseJtJ__m', inverseJtJ__rows'",
+    "LeastSquares.LeastSquares_est_d (estimateSize) result: Ac__cols', Ac__m', Ac__rows', Bc__m', Bc__rows', J__cols', J__m', J__rows', JtJ__cols', JtJ__m', JtJ__rows', JtY__m', JtY__rows', W__m', W__rows', Y__m', Y__rows', dataSize_', estimateSize_', inverseJtJ__cols', inverseJtJ__m', inverseJtJ__rows'",
+    "LeastSquares.LeastSquares_estData_d (dataSize estimateSize) result: Ac__cols', Ac__m', Ac__rows', Bc__m', Bc__rows', J__cols', J__m', J__rows', JtJ__cols', JtJ__m', JtJ__rows', JtY__m', JtY__rows', W__m', W__rows', Y__m', Y__rows', dataSize_', estimateSize_', inverseJtJ__cols', inverseJtJ__m', inverseJtJ__rows'",
+    "LeastSquares.setDataSize_d (J__cols J__m J__rows W__m W__rows Y__m Y__rows dataSize estimateSize_ resize_J_ resize_W_ resize_Y_) result: ret, J__cols', J__m', J__rows', W__m', W__rows', Y__m', Y__rows', dataSize_'",
+    "LeastSquares.setEstimateSize_d (J__cols J__m J__rows Y__m Y__rows estimateSize resize_J_) result: Ac__cols', Ac__m', Ac__rows', Bc__m', Bc__rows', J__cols', J__m', J__rows', JtJ__cols', JtJ__m', JtJ__rows', JtY__m', JtY__rows', estimateSize_', inverseJtJ__cols', inverseJtJ__m', inverseJtJ__rows'",
+    "LeastSquares.setPreconditionner_Ab_d (Ac_cols Ac_m Ac_rows Bc_m Bc_rows) result: Ac__cols', Ac__m', Ac__rows', Bc__m', Bc__rows'",
+    "LeastSquares.setPreconditionner_A_d (Ac_cols Ac_m Ac_rows estimateSize_) result: Ac__cols', Ac__m', Ac__rows', Bc__m', Bc__rows'",
+    "dynSumN ()",
+    "dynSum (n f)",
+    "dynSet2 (M i j x)",
+    "LeastSquares.computeJTJ__d.loop2 (J__cols J__m J__rows dataSize_ estimateSize_ i) carried: JtJ__m, j",
+    "LeastSquares.computeJTJ__d.loop1 (J__cols J__m J__rows dataSize_ estimateSize_) carried: JtJ__m, i",
+    "LeastSquares.computeJTJ__d (J__cols J__m J__rows JtJ__m dataSize_ estimateSize_) result: JtJ__m' (none = a partial operation failed: index outside a vector)",
+    "dynSet1 (v i x)",
+    "LeastSquares.computeJTY__d.loop1 (J__cols J__m J__rows Y__m Y__rows dataSize_ estimateSize_) carried: JtY__m, i",
+    "LeastSquares.computeJTY__d (J__cols J__m J__rows JtY__m Y__m Y__rows dataSize_ estimateSize_) result: JtY__m' (none = a partial operation failed: index outside a vector)",
+    "LeastSquares.weightJAndY__d.loop1 (W__m W__rows dataSize_ estimateSize_) carried: J__m, i",
+    "LeastSquares.weightJAndY__d (J__m W__m W__rows Y__m dataSize_ estimateSize_) result: J__m', Y__m' (none = a partial operation failed: index outside a vector)",
+    "LeastSquares.estimateUsingSVD_d.loop1 (estimateSize_) carried: inverseJtJ__m, n",
+    "LeastSquares.estimateUsingSVD_d (Ac__cols Ac__m Ac__rows Bc__m Bc__rows J__cols J__m J__rows JacobiSVD_matrixU JacobiSVD_matrixV JacobiSVD_singularValues JtJ__cols JtJ__m JtJ__rows JtY__m JtY__rows Y__m Y__rows dataSize_ estimateSize_) result: ret_m, ret_rows, JtJ__m', JtY__m', inverseJtJ__cols', inverseJtJ__m', inverseJtJ__rows' (none = a partial operation failed: index outside a vector)",
+    "LeastSquares.estimateUsingCholeskyDecomposition_d (Ac__cols Ac__m Ac__rows Bc__m Bc__rows J__cols J__m J__rows JtJ__cols JtJ__m JtJ__rows JtY__m JtY__rows Y__m Y__rows dataSize_ estimateSize_ ldlt_solve) result: ret_m, ret_rows, JtJ__m', JtY__m', inverseJtJ__cols', inverseJtJ__m', inverseJtJ__rows' (none = a partial operation failed: index outside a vector)",
+    "LeastSquares.weightedEstimate_d (Ac__cols Ac__m Ac__rows Bc__m Bc__rows J__cols J__m J__rows JtJ__cols JtJ__m JtJ__rows JtY__m JtY__rows W__m W__rows Y__m Y__rows dataSize_ estimateSize_ ldlt_solve) result: ret_m, ret_rows, J__m', JtJ__m', JtY__m', Y__m', inverseJtJ__cols', inverseJtJ__m', inverseJtJ__rows' (none = a partial operation failed: index outside a vector)",
+    "LeastSquares.computeEstimateCovariance_d (Ac__cols Ac__m Ac__rows dataVariance inverseJtJ__cols inverseJtJ__m inverseJtJ__rows) result: ret_cols, ret_m, ret_rows",
+    "LeastSquares.LeastSquares_default_f () result: Ac__cols', Ac__m', Ac__rows', Bc__m', Bc__rows', J__cols', J__m', J__rows', JtJ__cols', JtJ__m', JtJ__rows', JtY__m', JtY__rows', W__m', W__rows', Y__m', Y__rows', dataSize_', estimateSize_', inverseJtJ__cols', inverseJtJ__m', inverseJtJ__rows'",
+    "LeastSquares.LeastSquares_est_f (estimateSize) result: Ac__cols', Ac__m', Ac__rows', Bc__m', Bc__rows', J__cols', J__m', J__rows', JtJ__cols', JtJ__m', JtJ__rows', JtY__m', JtY__rows', W__m', W__rows', Y__m', Y__rows', dataSize_', estimateSize_', inverseJtJ__cols', inverseJtJ__m', inverseJtJ__rows'",
+    "LeastSquares.LeastSquares_estData_f (dataSize estimateSize) result: Ac__cols', Ac__m', Ac__rows', Bc__m', Bc__rows', J__cols', J__m', J__rows', JtJ__cols', JtJ__m', JtJ__rows', JtY__m', JtY__rows', W__m', W__rows', Y__m', Y__rows', dataSize_', estimateSize_', inverseJtJ__cols', inverseJtJ__m', inverseJtJ__rows'",
+    "LeastSquares.setDataSize_f (J__cols J__m J__rows W__m W__rows Y__m Y__rows dataSize estimateSize_ resize_J_ resize_W_ resize_Y_) result: ret, J__cols', J__m', J__rows', W__m', W__rows', Y__m', Y__rows', dataSize_'",
+    "LeastSquares.setEstimateSize_f (J__cols J__m J__rows Y__m Y__rows estimateSize resize_J_) result: Ac__cols', Ac__m', Ac__rows', Bc__m', Bc__rows', J__cols', J__m', J__rows', JtJ__cols', JtJ__m', JtJ__rows', JtY__m', JtY__rows', estimateSize_', inverseJtJ__cols', inverseJtJ__m', inverseJtJ__rows'",
+    "LeastSquares.setPreconditionner_Ab_f (Ac_cols Ac_m Ac_rows Bc_m Bc_rows) result: Ac__cols', Ac__m', Ac__rows', Bc__m', Bc__rows'",
+    "LeastSquares.setPreconditionner_A_f (Ac_cols Ac_m Ac_rows estimateSize_) result: Ac__cols', Ac__m', Ac__rows', Bc__m', Bc__rows'",
+    "LeastSquares.computeJTJ__f.loop2 (J__cols J__m J__rows dataSize_ estimateSize_ i) carried: JtJ__m, j",
+    "LeastSquares.computeJTJ__f.loop1 (J__cols J__m J__rows dataSize_ estimateSize_) carried: JtJ__m, i",
+    "LeastSquares.computeJTJ__f (J__cols J__m J__rows JtJ__m dataSize_ estimateSize_) result: JtJ__m' (none = a partial operation failed: index outside a vector)",
+    "LeastSquares.computeJTY__f.loop1 (J__cols J__m J__rows Y__m Y__rows dataSize_ estimateSize_) carried: JtY__m, i",
+    "LeastSquares.computeJTY__f (J__cols J__m J__rows JtY__m Y__m Y__rows dataSize_ estimateSize_) result: JtY__m' (none = a partial operation failed: index outside a vector)",
+    "LeastSquares.weightJAndY__f.loop1 (W__m W__rows dataSize_ estimateSize_) carried: J__m, i",
+    "LeastSquares.weightJAndY__f (J__m W__m W__rows Y__m dataSize_ estimateSize_) result: J__m', Y__m' (none = a partial operation failed: index outside a vector)",
+    "LeastSquares.estimateUsingSVD_f.loop1 (estimateSize_) carried: inverseJtJ__m, n",
+    "LeastSquares.estimateUsingSVD_f (Ac__cols Ac__m Ac__rows Bc__m Bc__rows J__cols J__m J__rows JacobiSVD_matrixU JacobiSVD_matrixV JacobiSVD_singularValues JtJ__cols JtJ__m JtJ__rows JtY__m JtY__rows Y__m Y__rows dataSize_ estimateSize_) result: ret_m, ret_rows, JtJ__m', JtY__m', inverseJtJ__cols', inverseJtJ__m', inverseJtJ__rows' (none = a partial operation failed: index outside a vector)",
+    "LeastSquares.estimateUsingCholeskyDecomposition_f (Ac__cols Ac__m Ac__rows Bc__m Bc__rows J__cols J__m J__rows JtJ__cols JtJ__m JtJ__rows JtY__m JtY__rows Y__m Y__rows dataSize_ estimateSize_ ldlt_solve) result: ret_m, ret_rows, JtJ__m', JtY__m', inverseJtJ__cols', inverseJtJ__m', inverseJtJ__rows' (none = a partial operation failed: index outside a vector)",
+    "LeastSquares.weightedEstimate_f (Ac__cols Ac__m Ac__rows Bc__m Bc__rows J__cols J__m J__rows JtJ__cols JtJ__m JtJ__rows JtY__m JtY__rows W__m W__rows Y__m Y__rows dataSize_ estimateSize_ ldlt_solve) result: ret_m, ret_rows, J__m', JtJ__m', JtY__m', Y__m', inverseJtJ__cols', inverseJtJ__m', inverseJtJ__rows' (none = a partial operation failed: index outside a vector)",
+    "LeastSquares.computeEstimateCovariance_f (Ac__cols Ac__m Ac__rows dataVariance inverseJtJ__cols inverseJtJ__m inverseJtJ__rows) result: ret_cols, ret_m, ret_rows"] := by rfl
+
 end Romea.Hidden.C07
